@@ -254,6 +254,9 @@ pub struct ProgKnobs {
     pub avoid_reparent_attached: bool,
     /// Probability (in 1/16) that a step targets something absent from the state.
     pub absent_16: u64,
+    /// Allow one program to write the same location twice with different values ("reset then
+    /// set"): the two ops share a sort key, so the tick must be refused - under every schedule.
+    pub double_write: bool,
 }
 
 fn write_key(step: &Step) -> Option<String> {
@@ -375,7 +378,7 @@ pub fn gen_prog(rng: &mut Rng, state: &StateSpec, wi: usize, rule: u8, nonce: u3
             continue;
         }
         if let Some(k) = write_key(&step) {
-            if !keys.insert(k) {
+            if !keys.insert(k) && !(knobs.double_write && rng.chance(1, 2)) {
                 continue;
             }
         }
